@@ -467,7 +467,7 @@ pub fn run(env: &Env) -> i32 {
         };
     }
     replay_saved(env, &mut rep, &exec);
-    let n = env.cases(12000, 400000);
+    let n = env.cases(100000, 800000);
     let r = run_cases(
         env,
         1,
